@@ -760,6 +760,15 @@ class ClientSession:
 
                     # redirects
                     if resp.status in (301, 302, 303, 307, 308) and allow_redirects:
+                        r_url = resp.headers.get(hdrs.LOCATION) or resp.headers.get(
+                            hdrs.URI
+                        )
+                        if r_url is None:
+                            # Nothing to follow: this is the final response, not
+                            # a hop (it does not belong into its own history).
+                            # see github.com/aio-libs/aiohttp/issues/2022
+                            break
+
                         for trace in traces:
                             await trace.send_request_redirect(
                                 method, url.update_query(params), headers, resp
@@ -802,16 +811,9 @@ class ClientSession:
                                 )
                             data = req._body
 
-                        r_url = resp.headers.get(hdrs.LOCATION) or resp.headers.get(
-                            hdrs.URI
-                        )
-                        if r_url is None:
-                            # see github.com/aio-libs/aiohttp/issues/2022
-                            break
-                        else:
-                            # reading from correct redirection
-                            # response is forbidden
-                            resp.release()
+                        # reading from correct redirection
+                        # response is forbidden
+                        resp.release()
 
                         try:
                             parsed_redirect_url = URL(
